@@ -26,9 +26,14 @@ pub uninterp spec fn lossy_text(s: Seq<char>) -> Seq<char>;
 #[verifier::external_body]
 pub fn percent_decode_utf8_lossy(s: &str) -> (r: Decoded)
     ensures r.text@ == (if pct_decode(s@) is Some { pct_decode(s@)->Some_0 } else { lossy_text(s@) }) { unimplemented!() }
+/// str::trim: the text without leading and trailing whitespace (an uninterpreted function of the text)
+pub uninterp spec fn trimmed(s: Seq<char>) -> Seq<char>;
 impl Decoded {
     #[verifier::external_body]
     pub fn as_ref(&self) -> (r: &str) ensures r@ == self.text@ { unimplemented!() }
+    /// (Cow<str> derefs to str: so that a `trim()` slipped in is decided, not refused)
+    #[verifier::external_body]
+    pub fn trim(&self) -> (r: &str) ensures r@ == trimmed(self.text@) { unimplemented!() }
     #[verifier::external_body]
     pub fn to_string_(&self) -> (r: String) ensures r@ == self.text@ { unimplemented!() }
 }
